@@ -25,10 +25,12 @@ theorem dispatch_family_ok : groupOk = true := by decide +kernel
 
 /-- **C12 (1)** every dispatched entry point, under every architecturally consistent configuration
     (and the stated conventions / documented minimum), binds to a symbol all of whose reachable
-    instructions belong to ISA classes available in that configuration -/
+    instructions belong to ISA classes available in that configuration, and the resolver itself executes
+    no instruction that is undefined there (XGETBV only with CPUID.1:ECX.OSXSAVE set) -/
 theorem C12_exec (e : Entry) (he : e ∈ entries) (cfg : Cfg) (hc : Consistent cfg) (hv : Conventions cfg)
     (hmin : ∀ b ∈ minBitsOf e, bitSet cfg b = true) :
-    ∃ s, select e.prog cfg = some (.sym s) ∧ ∀ i ∈ need s, Avail cfg i := by
+    ∃ s, select e.prog cfg = some (.sym s) ∧ (∀ i ∈ need s, Avail cfg i) ∧
+      (run cfg e.prog (4 * e.prog.length) c0).ud = false := by
   have hok : entryOk e = true := by
     cases h : entryOk e with
     | true => rfl
